@@ -262,6 +262,29 @@ class C17(Monitor):
                 stats["exact_boundary_points"] += 1
                 if not rect.containsPoint(px, py):
                     bad("boundary-point-not-in-closed-rect", "rect %r point (%r,%r)" % ((rect.x1, rect.y1, rect.x2, rect.y2), px, py))
+        # ---- the same regions seen through the registry: add a, replace it by b (same id): points are excluded exactly when b says so
+        try:
+            from ..harness import ExcludeRegionState, make_logger
+            st = ExcludeRegionState(make_logger(False))
+            st.addRegion(mk(a, "z"))
+            st.replaceRegion(mk(b, "z"), False)
+            for (px, py) in pts[:40]:
+                if not (math.isfinite(px) and math.isfinite(py)):
+                    continue
+                if b[0] == "rect":
+                    p = b[1]
+                    want = exact_in_rect(min(p[0], p[2]), min(p[1], p[3]), max(p[0], p[2]), max(p[1], p[3]), px, py)
+                else:
+                    want = exact_in_disc(b[1][0], b[1][1], b[1][2], px, py)
+                if want is None:
+                    continue
+                stats["registry_membership_evaluations"] += 1
+                if bool(st.isPointExcluded(px, py)) != want:
+                    bad("registry-membership-differs", "after add %r / replace by %r the state says (%r, %r) excluded=%r, exact arithmetic %r"
+                        % (a, b, px, py, st.isPointExcluded(px, py), want))
+                    break
+        except Exception as exc:  # noqa: B902
+            bad("registry-raised", repr(exc))
         # ---- containment soundness, both directions
         nontrivial = False
         for (os_, oreg, is_, ireg) in ((a, ra, b, rb), (b, rb, a, ra)):
